@@ -39,6 +39,9 @@ type BindInput struct {
 	// SubAlias: the submodule imports module b under the prefix c (and nothing under b), while its
 	// owner imports module c under c: prefixes are scoped per file
 	SubAlias bool `json:"submodule_calls_b_c,omitempty"`
+	// CHasT: module c declares t too (base empty), so the prefix c resolves in the module (to c) and
+	// in its submodule (to b) within one program
+	CHasT bool `json:"c_defines_t,omitempty"`
 }
 
 // bindWorld builds the program: typedef t at the given scopes, a reference leaf at each given site.
@@ -78,6 +81,9 @@ func bindWorld(in BindInput) (*ir.World, map[string][]string) {
 	b := &ir.Mod{Name: "b", Includes: []string{"bs"}}
 	bs := &ir.Mod{Name: "bs", Owner: "b"}
 	c := &ir.Mod{Name: "c"} // imported but never defines t: a foreign prefix must not fall back to anything else
+	if in.CHasT {
+		c.Body = []*ir.S{ir.Typedef("t", "empty")}
+	}
 	li := &ir.S{Kind: "list", Name: "li", Kids: cat(td("list"), ref("list", "r_list"))}
 	cont := &ir.S{Kind: "container", Name: "cn", Kids: cat(td("container"), ref("container", "r_cont"), []*ir.S{li})}
 	inner := &ir.S{Kind: "grouping", Name: "gi", Kids: ref("nested-grouping", "r_gi")}
@@ -468,7 +474,7 @@ func shards(tier string) []string {
 }
 
 func run(c *core.Ctx) {
-	c.Res.Bound = "bind: typedef t at every subset of <= 3 (thorough 4) of 11 scopes x 5 spellings (bare, own prefix, foreign prefix, unknown prefix, prefix of a module without t) x 10 reference sites (all sites in one program when all resolve, one program per site otherwise), 2 load orders; chain: 3-level chains, 2^9 set/omit patterns of units/default/pattern x 4 leaf additions for strings, 2^6 for enum, bits, leafref, decimal64, union, identityref bases; union: every ordered pair and triple of 26 member types (near-equal enums, ranges, typedefs of the same name in two modules, bits, identityrefs, leafrefs, decimal64s, a nested union) read directly, through a typedef chain, in a leaf-list and through a grouping, 2 load orders; errors: 22 unknown/unresolvable/cyclic references, in a module and in a submodule, processed twice"
+	c.Res.Bound = "bind: typedef t at every subset of <= 3 (thorough 4) of 11 scopes x 5 spellings (bare, own prefix, foreign prefix, unknown prefix, prefix of a module without t) x 10 reference sites (all sites in one program when all resolve, one program per site otherwise), 3 prefix regimes (same prefixes in module and submodule; the submodule calls b by the prefix its owner gives c; the same with c defining t too, so one prefix resolves to two modules within one program), 2 load orders; chain: 3-level chains, 2^9 set/omit patterns of units/default/pattern x 4 leaf additions for strings, 2^6 for enum, bits, leafref, decimal64, union, identityref bases; union: every ordered pair and triple of 26 member types (near-equal enums, ranges, typedefs of the same name in two modules, bits, identityrefs, leafrefs, decimal64s, a nested union) read directly, through a typedef chain, in a leaf-list and through a grouping, 2 load orders; errors: 22 unknown/unresolvable/cyclic references, in a module and in a submodule, processed twice"
 	report := func(caseNo int64, in Input, f *fail) {
 		c.Outcome("FAIL:" + f.fp)
 		c.Fail(caseNo, nil, f.fp, in, f.exp, f.obs)
@@ -494,12 +500,16 @@ func run(c *core.Ctx) {
 					c.Outcome("excluded:t-declared-twice-in-one-module-namespace")
 					continue
 				}
-				for _, alias := range []bool{false, true} {
+				for regime := 0; regime < 3; regime++ {
+					alias, cHasT := regime > 0, regime == 2
 					if alias && sp != "b:t" && sp != "c:t" {
 						continue
 					}
+					if cHasT && sp != "c:t" {
+						continue
+					}
 					// does every site resolve?
-					all := BindInput{Decl: decl, Spelling: sp, Sites: sites, SubAlias: alias}
+					all := BindInput{Decl: decl, Spelling: sp, Sites: sites, SubAlias: alias, CHasT: cHasT}
 					w, _ := bindWorld(all)
 					w.Build()
 					var progs []BindInput
@@ -507,7 +517,7 @@ func run(c *core.Ctx) {
 						progs = []BindInput{all}
 					} else {
 						for _, s := range sites {
-							progs = append(progs, BindInput{Decl: decl, Spelling: sp, Sites: []string{s}, SubAlias: alias})
+							progs = append(progs, BindInput{Decl: decl, Spelling: sp, Sites: []string{s}, SubAlias: alias, CHasT: cHasT})
 						}
 					}
 					for _, p := range progs {
